@@ -37,11 +37,14 @@ CONSTANTS IncludeGuard, NsNoneCheck, HexBounds, CtxBounds, ValueWrapped,
 
 AnyMof == {"ok"} \cup MOFErrors
 
-(* value kinds every reading of DSP0004 rejects (used only to predict) *)
+(* value kinds whose conversion (cimvalue, CIM type constructors, int())   *)
+(* raises ValueError or TypeError                                          *)
 StrictValue(k, v) ==
   \/ v \in {"int_overflow", "huge_int", "neg_unsigned", "str_for_int",
-            "bad_datetime", "int_for_datetime", "real_for_int",
-            "mixed_array", "qual_str_for_int", "qual_int_overflow"}
+            "bad_datetime", "int_for_datetime", "mixed_array",
+            "scalar_for_array", "huge_digits", "qual_str_for_int",
+            "qual_int_overflow"}
+  \/ k = "qualDecl" /\ v = "array_for_scalar"
   \/ k \in {"class", "instance"} /\ v \in {"ref_default_int", "int_for_ref"}
 
 (* what escapes from the unwrapped conversions (cimvalue, CIM type ctors) *)
@@ -135,13 +138,11 @@ ImplProd(p, env) ==
          THEN IF p.v = "hexesc_name"
               THEN {IF HexBounds THEN "OSError" ELSE "IndexError"}
               ELSE {"OSError"}
-         ELSE IF StrictValue(p.k, p.v)
-         THEN IF ValueWrapped
-              THEN {"MOFParseError"}
-              ELSE IF p.k = "instance" /\ LegacyValueExc(p.k, p.v) = "ValueError"
-              THEN {"MOFParseError"}
-              ELSE {LegacyValueExc(p.k, p.v)}
-         ELSE AnyMof
+         ELSE IF StrictValue(p.k, p.v) /\ ~ValueWrapped
+                 /\ ~(p.k = "instance" /\ p.v # "huge_digits"
+                      /\ LegacyValueExc(p.k, p.v) = "ValueError")
+         THEN {LegacyValueExc(p.k, p.v)}
+         ELSE AnyMof        \* which mismatches are rejected is not constrained
     [] p.d = "dependency" ->
          IF p.k = "include"
          THEN IF p.v \in {"self", "mutual"} THEN {"PUSH"} ELSE {"OSError"}
@@ -186,5 +187,10 @@ PredictSeq(ses, prods, i, nsw, loose) ==
        \cup (IF "ok" \in here
              THEN PredictSeq(ses, prods, i + 1, nsw2, loose2) ELSE {})
 
-Predict(ses) == PredictSeq(ses, ses.main, 1, FALSE, FALSE)
+NonPlain(ses) == {i \in DOMAIN ses.main : ses.main[i] \notin Ctx \cup {Inc2}}
+NonPlainInc(ses) == {i \in DOMAIN ses.inc : ses.inc[i] \notin Ctx \cup {Inc2}}
+Predict(ses) ==
+  IF Cardinality(NonPlain(ses)) + Cardinality(NonPlainInc(ses)) > 1
+  THEN Admissible(ses)   \* several defects (random driver): no prediction
+  ELSE PredictSeq(ses, ses.main, 1, FALSE, FALSE)
 =============================================================================
